@@ -846,6 +846,117 @@ pub fn generate(em: &mut Emitter, seed: u64, thorough: bool) {
             }
         }
     }
+
+    // (9) kernel restrictions reach through imported library modules: a kernel procedure which
+    // inlines (exec) a library procedure containing call / procref - directly, through a second
+    // module, or through a re-export - must be rejected, on a cold and on a warm procedure cache;
+    // every accepted kernel procedure is free of CALL blocks
+    {
+        fn has_call_block(b: &CodeBlock) -> bool {
+            match b {
+                CodeBlock::Join(j) => has_call_block(j.first()) || has_call_block(j.second()),
+                CodeBlock::Split(s) => has_call_block(s.on_true()) || has_call_block(s.on_false()),
+                CodeBlock::Loop(l) => has_call_block(l.body()),
+                CodeBlock::Call(_) => true,
+                _ => false,
+            }
+        }
+        let mk_lib = |mods: &[(&str, String)]| -> MaslLibrary {
+            let modules: Vec<Module> = mods
+                .iter()
+                .map(|(name, src)| Module::new(LibraryPath::new(format!("libk::{}", name)).unwrap(), ModuleAst::parse(src).unwrap()))
+                .collect();
+            MaslLibrary::new(LibraryNamespace::new("libk").unwrap(), Version::default(), false, modules, vec![]).unwrap()
+        };
+        for forbidden in ["", "call.bar", "procref.bar dropw"] {
+            for shape in ["direct", "nested", "alias", "sibling", "in-branch", "in-loop"] {
+                for warm in [false, true] {
+                    let bar = "proc.bar push.3 drop end\n";
+                    let (mods, kernel): (Vec<(&str, String)>, String) = match shape {
+                        "direct" => (
+                            vec![("helpers", format!("{bar}export.foo push.1 drop {forbidden} end\n"))],
+                            "use.libk::helpers\nexport.kproc exec.helpers::foo end".to_string(),
+                        ),
+                        "in-branch" => (
+                            vec![("helpers", format!("{bar}export.foo push.1 if.true push.2 drop else push.4 drop {forbidden} end end\n"))],
+                            "use.libk::helpers\nexport.kproc exec.helpers::foo end".to_string(),
+                        ),
+                        "in-loop" => (
+                            vec![("helpers", format!("{bar}export.foo push.0 while.true push.4 drop {forbidden} push.0 end end\n"))],
+                            "use.libk::helpers\nproc.inner exec.helpers::foo end\nexport.kproc exec.inner end".to_string(),
+                        ),
+                        "nested" => (
+                            vec![
+                                ("base", format!("{bar}export.baz push.1 drop {forbidden} end\n")),
+                                ("helpers", "use.libk::base\nexport.foo push.2 drop exec.base::baz end\n".to_string()),
+                            ],
+                            "use.libk::helpers\nexport.kproc exec.helpers::foo end".to_string(),
+                        ),
+                        "alias" => (
+                            vec![
+                                ("base", format!("{bar}export.baz push.1 drop {forbidden} end\n")),
+                                ("helpers", "use.libk::base\nexport.base::baz->foo\n".to_string()),
+                            ],
+                            "use.libk::helpers\nexport.kproc exec.helpers::foo end".to_string(),
+                        ),
+                        _ => (
+                            vec![("helpers", format!("{bar}export.other push.1 drop {forbidden} end\nexport.foo push.2 drop end\n"))],
+                            "use.libk::helpers\nexport.kproc exec.helpers::foo end".to_string(),
+                        ),
+                    };
+                    let lib = mk_lib(&mods);
+                    let a = Assembler::default().with_library(&lib).expect("library loads");
+                    if warm {
+                        // the library procedures are compiled (and cached) by an ordinary program first
+                        let _ = compile_outcome(&a, "use.libk::helpers\nbegin exec.helpers::foo end");
+                    }
+                    bump("kernel_library_cases", &mut stats);
+                    let desc = format!(
+                        "shape={} forbidden=`{}` cache={} kernel=`{}` library={:?}",
+                        shape, forbidden, if warm { "warm" } else { "cold" }, kernel.replace('\n', " "), mods
+                    );
+                    let must_reject = !forbidden.is_empty() && shape != "sibling";
+                    match catch_unwind(AssertUnwindSafe(|| a.with_kernel(&kernel))) {
+                        Err(_) => em.oracle_failures.push(format!("C11 kernel compilation panics: {}", desc)),
+                        Ok(Err(e)) => {
+                            bump("kernel_library_rejected", &mut stats);
+                            if forbidden.is_empty() {
+                                em.oracle_failures.push(format!("C11 valid kernel using a library procedure rejected ({:?}): {}", e, desc));
+                            }
+                        }
+                        Ok(Ok(ka)) => {
+                            bump("kernel_library_accepted", &mut stats);
+                            if must_reject {
+                                em.oracle_failures.push(format!("C11 kernel reaching call/procref through an imported library procedure accepted: {}", desc));
+                            }
+                            match catch_unwind(AssertUnwindSafe(|| ka.compile("begin syscall.kproc end"))) {
+                                Ok(Ok(p)) => {
+                                    let mut t = vec![];
+                                    call_targets(p.root(), &mut t);
+                                    for r in t {
+                                        match p.cb_table().get(r.into()) {
+                                            Some(body) => {
+                                                if has_call_block(body) {
+                                                    em.oracle_failures.push(format!("C11 accepted kernel procedure contains a CALL block: {}", desc));
+                                                }
+                                            }
+                                            None => em.oracle_failures.push(format!("C11 syscall target has no body in cb_table: {}", desc)),
+                                        }
+                                    }
+                                }
+                                Ok(Err(e)) => em.oracle_failures.push(format!("C11 syscall to an accepted kernel procedure does not compile ({:?}): {}", e, desc)),
+                                Err(_) => {
+                                    if !must_reject {
+                                        em.oracle_failures.push(format!("C11 syscall to an accepted kernel procedure panics the assembler: {}", desc));
+                                    }
+                                }
+                            }
+                        }
+                    }
+                }
+            }
+        }
+    }
     for (k, v) in stats {
         em.stat(k, v);
     }
